@@ -483,7 +483,10 @@ def _ref_parts(node, names):
     flat = [ix for comp in indices for ix in comp]
     if any(isinstance(ix, N.Range) for ix in flat) or len(flat) > 2:
         raise minif.Unsupported("array access " + str(sig))
-    if type(node) is N.Reference:
+    if getattr(names, "lenient", False):     # PSy-layer loops: the types of fields are imported, nothing to resolve
+        if not isinstance(node, N.Reference):
+            raise minif.Unsupported(type(node).__name__)
+    elif type(node) is N.Reference:
         sym = node.symbol
         if not (isinstance(sym, DataSymbol) and isinstance(sym.datatype, ScalarType)):
             raise minif.Unsupported("whole array / structure " + node.name)      # `a = 0`, `cfg = g`
